@@ -9,6 +9,7 @@ import (
 
 	"github.com/prometheus/client_golang/prometheus"
 
+	"github.com/thanos-io/thanos/pkg/store/labelpb"
 	"github.com/thanos-io/thanos/pkg/store/storepb/prompb"
 	"github.com/thanos-io/thanos/pkg/verifhook/vfkit"
 )
@@ -82,13 +83,15 @@ func TestVF_C18(t *testing.T) {
 	defer r.Finish()
 	const perms = 3
 	nSeries := 200
-	r.Rule("case = one configuration: algorithm {ketama 75%, hashmod}, 1..12 distinct endpoints (5 address styles incl. adversarial alphabet), ketama with no / 1..4 availability zones of arbitrary sizes, RF 1..min(5,n); " +
-		"the ring is built by NewMultiHashring from the endpoint list and from 3 random permutations of it; 200 (tenant, label-set) pairs from the adversarial alphabet per configuration; " +
+	r.Rule("case = one configuration: algorithm {ketama 75%, hashmod}, 1..12 distinct endpoints (8 address styles incl. adversarial alphabet and host:port families differing only in port / only in host), ketama with no / 1..4 availability zones of arbitrary sizes, RF 1..min(5,n); " +
+		"the ring is built by NewMultiHashring from the endpoint list and from 3 random permutations of it; 200 (tenant, label-set) pairs per configuration: tenants from a pool of 4 plus fresh alphabet strings, " +
+		"label sets from the adversarial alphabet mixed with runs of 1..4 series whose serialized labels exceed 1 KB (long values / 60..120 labels); " +
 		"oracle per pair: GetN(n) for n in [0,RF) returns pairwise distinct endpoints, a repeated call returns the same sequence, every permuted ring returns the same sequence, and if >=2 zones are configured and the zone sizes " +
-		"can accommodate it (q=RF div Z, r=RF mod Z: all zones >= q nodes, >= r zones >= q+1 nodes) the per-zone replica counts differ by at most one; " +
+		"can accommodate it (q=RF div Z, r=RF mod Z: all zones >= q nodes, >= r zones >= q+1 nodes) the per-zone replica counts differ by at most one; afterwards all pairs are looked up back to back through ONE recycled " +
+		"TimeSeries struct (Labels overwritten in place) and through fresh struct instances on two rings: same placement as recorded; " +
 		"configurations whose construction never terminates (lap without progress on hook ketama.scan, see C19) are skipped and counted; " +
 		"distinct = configuration; non-trivial = ring built and n >= 2")
-	n := r.N(150, 1800)
+	n := r.N(100, 1500)
 	r.Require(int64(n)*int64(nSeries)/2, n/2)
 	r.Assume("endpoint addresses within one hashring are distinct and non-empty (Endpoint.UnmarshalJSON rejects an empty address)")
 	r.Assume("hashmod is generated without availability zones (the constructor rejects them by design)")
@@ -176,9 +179,33 @@ func TestVF_C18(t *testing.T) {
 			return out, nil
 		}
 		bad := false
+		// tenants come from a small per-configuration pool (plus fresh ones), so that consecutive lookups
+		// often share the tenant; series are small alphabet label sets mixed with runs of 1..4 series whose
+		// serialized labels exceed 1 KB.
+		pool := []string{vfkit.Str(rng, 3, false), vfkit.Str(rng, 3, false), "tenant-a", ""}
+		type vfc18Rec struct {
+			tenant string
+			ts     *prompb.TimeSeries
+			base   []Endpoint
+		}
+		var recs []vfc18Rec
+		bigRun := 0
 		for s := 0; s < nSeries && !bad; s++ {
-			tenant := vfkit.Str(rng, 3, false)
-			ts := vfc18kSeries(rng)
+			tenant := vfkit.Pick(rng, pool)
+			if rng.Intn(4) == 0 {
+				tenant = vfkit.Str(rng, 3, false)
+			}
+			if bigRun == 0 && rng.Intn(12) == 0 {
+				bigRun = 1 + rng.Intn(4)
+			}
+			var ts *prompb.TimeSeries
+			if bigRun > 0 {
+				bigRun--
+				ts = vfc18kBigSeries(rng)
+				r.Count("series_over_1KB", 1)
+			} else {
+				ts = vfc18kSeries(rng)
+			}
 			swit := func(extra map[string]any) map[string]any {
 				m := wit(extra)
 				m["tenant"] = tenant
@@ -220,6 +247,7 @@ func TestVF_C18(t *testing.T) {
 						return
 					}
 				}
+				recs = append(recs, vfc18Rec{tenant, ts, base})
 				// (d) zone balance when the zones can accommodate it
 				if balanceApplies {
 					cnt := map[string]int{}
@@ -238,6 +266,41 @@ func TestVF_C18(t *testing.T) {
 							swit(map[string]any{"replicas": vfc18kFmtEndpoints(base), "per_zone": fmt.Sprint(cnt)}))
 						bad = true
 						return
+					}
+				}
+			})
+		}
+		// (e) placement depends on the label *values*, not on the identity of the TimeSeries struct: the same
+		// (tenant, labels) looked up back to back through ONE recycled struct (Labels overwritten in place, as a
+		// decoder reusing its message does) and through fresh struct instances must give the recorded placement.
+		if !bad {
+			r.Guard(c, "getn-recycled:"+cfg.Algo, wit(nil), func() {
+				for ri, h := range rings[:min(2, len(rings))] {
+					recycled := &prompb.TimeSeries{}
+					for i, rec := range recs {
+						recycled.Labels = append(recycled.Labels[:0], rec.ts.Labels...)
+						r.Eval(1)
+						got, err := get(h, rec.tenant, recycled)
+						if err != nil || !vfc18SameSeq(rec.base, got) {
+							prev := "none"
+							if i > 0 {
+								prev = fmt.Sprintf("tenant %q series %s", recs[i-1].tenant, vfc18kFmtSeries(recs[i-1].ts))
+							}
+							r.Violation(c, "placement-depends-on-series-struct-not-labels:"+cfg.Algo, "a lookup through a recycled TimeSeries struct (labels overwritten since the previous lookup) differs from the lookup of the same tenant and labels through a fresh struct",
+								wit(map[string]any{"ring": ri, "tenant": rec.tenant, "series": vfc18kFmtSeries(rec.ts), "fresh_struct": vfc18kFmtEndpoints(rec.base), "recycled_struct": vfc18kFmtEndpoints(got), "previous_lookup_through_recycled_struct": prev, "error": fmt.Sprint(err)}))
+							return
+						}
+					}
+					for i := len(recs) - 1; i >= 0; i -= 3 {
+						rec := recs[i]
+						inst := &prompb.TimeSeries{Labels: append([]labelpb.ZLabel(nil), rec.ts.Labels...)}
+						r.Eval(1)
+						got, err := get(h, rec.tenant, inst)
+						if err != nil || !vfc18SameSeq(rec.base, got) {
+							r.Violation(c, "placement-differs-between-struct-instances:"+cfg.Algo, "the same tenant and labels looked up through another TimeSeries instance are placed differently",
+								wit(map[string]any{"ring": ri, "tenant": rec.tenant, "series": vfc18kFmtSeries(rec.ts), "first": vfc18kFmtEndpoints(rec.base), "other_instance": vfc18kFmtEndpoints(got), "error": fmt.Sprint(err)}))
+							return
+						}
 					}
 				}
 			})
